@@ -4,13 +4,13 @@ import numpy as np
 from hypothesis import strategies as st
 
 from ..core import Violation, HarnessError, require, canon
-from ..strategies import crystals as cs, vacancy as vs, data as dt
+from ..strategies import crystals as cs, vacancy as vs, data as dt, networks as nw
 from . import c07
 
 ID = "C14"
 RULE = ("History property.  Hypothesis draws a crystal/network, a pool of five inputs as tag dictionaries (D = C with the vacancy site energies moved by n x 1e-6, E = C with the omega0 barriers moved by 2e-6: finite-difference steps; A; B = A with other solute-vacancy "
         "and omega1/omega2 data but the same vacancy data, so the Green-function cache is hit; C independent) and a history of 3-12 "
-        "operations from {evaluate(k), scribble(previous result r, tensor t) = in-place overwrite of an array returned earlier, reuse_inputs(k') = the caller overwrites in place the input arrays it passed to the last evaluation with input k', "
+        "operations from {evaluate(k), scribble(previous result r, tensor t) = in-place overwrite of an array returned earlier, scribble_aux = in-place edit of the lists returned by omegalist()/interactlist(), reuse_inputs(k') = the caller overwrites in place the input arrays it passed to the last evaluation with input k', "
         "clearcache(), regenerate(N') = generate + generatematrices + generatetags (the constructor's own sequence), save/reload through an "
         "in-memory HDF5 file}.  Reference model: the value of input k on a pristine calculator of the current range that never sees the "
         "history (built once per range, outputs copied).  Oracle: every evaluate returns the reference value to 1e-12 x scale.  Non-trivial: "
@@ -24,10 +24,11 @@ CHEAP = ["SC", "BCC", "FCC", "square", "tria", "honeycomb", "B2o", "rect2", "dia
 
 @st.composite
 def op(draw):
-    kind = draw(st.sampled_from(["eval", "eval", "eval", "scribble", "scribble", "clear", "regen", "reload", "reuse"]))
+    kind = draw(st.sampled_from(["eval", "eval", "eval", "scribble", "scribble", "clear", "regen", "reload", "reuse", "scribble_aux"]))
     o = {"op": kind}
     if kind == "eval":
         o["k"] = draw(st.sampled_from([0, 0, 0, 1, 2, 3, 4]))
+        o["large0"] = draw(st.sampled_from([False, False, True]))   # Lij(..., large_om2=0): the large-exchange-rate algorithm, forced
     elif kind == "reuse":
         o["k"] = draw(st.sampled_from([2, 0, 2, 1]))   # input 2 has different vacancy data (another cache key)
     elif kind == "scribble":
@@ -36,12 +37,36 @@ def op(draw):
         o["value"] = draw(st.sampled_from([0.0, 123.25, -7.5]))
     elif kind == "regen":
         o["N"] = draw(st.sampled_from([1, 2]))
+    elif kind == "scribble_aux":
+        o["which"] = draw(st.sampled_from([1, 2]))
     return o
 
 
+def anisotropic_pruned_setups():
+    """long cells whose jump network is the nearest-neighbour jump plus the jump along the long axis only (the shells in between
+    left out): at thermodynamic range 2 new stars appear that are closer than the longest jump, so every star-indexed table
+    changes between ranges"""
+    out = []
+    for rec, long in (({"name": "tP-long", "lattice": [[1., 0., 0.], [0., 1., 0.], [0., 0., 2.3]], "basis": [[[0., 0., 0.]]]}, 2.3),
+                      ({"name": "rect-long", "lattice": [[1., 0.], [0., 3.5]], "basis": [[[0., 0.]]]}, 3.5)):
+        crys = cs.build(rec)
+        for k in range(1, 9):
+            sl, jn, cut = nw.network(crys, 0, k, 0)
+            lens = [float(np.linalg.norm(jl[0][1])) for jl in jn]
+            if any(abs(x - long) < 1e-9 for x in lens):
+                keep = sorted([int(np.argmin(lens)), [i for i, x in enumerate(lens) if abs(x - long) < 1e-9][0]])
+                out.append({"recipe": rec, "chem": 0, "k": k, "closest": 0, "Nthermo": 1, "keep": keep})
+                break
+    return out
+
+
 @st.composite
-def cases(draw):
-    base = draw(c07.cases().filter(lambda c: c["setup"]["Nthermo"] == 1))
+def cases(draw, special=False):
+    if special:
+        setup0 = draw(st.sampled_from(anisotropic_pruned_setups()))
+        base = draw(c07.vals_for(setup0))
+    else:
+        base = draw(c07.cases().filter(lambda c: c["setup"]["Nthermo"] == 1))
     setup = base["setup"]
     crys, sl, jn, calc = vs.calculator(setup)
     A = base["vals"]
@@ -76,13 +101,16 @@ def cases(draw):
         k2 = 2 if k1 != 2 else draw(st.sampled_from([0, 1]))
         at = draw(st.integers(0, len(hist)))
         hist[at:at] = [{"op": "eval", "k": k1}, {"op": "reuse", "k": k2}, {"op": "reload"}, {"op": "eval", "k": k2}]
+    if special:
+        hist = [{"op": "eval", "k": 0}, {"op": "regen", "N": 2}, {"op": "eval", "k": 0, "large0": True}, {"op": "eval", "k": 2, "large0": True},
+                {"op": "regen", "N": 1}, {"op": "eval", "k": 1, "large0": True}, {"op": "eval", "k": 0}] + hist[:3]
     return {"setup": setup, "kT": base["kT"], "member": base["member"], "pool": [A, B, C, D, E], "history": hist}
 
 
 _pristine = {}
 
 
-def reference(setup, N, usertags, kT, key):
+def reference(setup, N, usertags, kT, key, kw=None):
     """value on a calculator that never sees any history (one per range; only read through copies)"""
     s = dict(setup)
     s["Nthermo"] = N
@@ -94,7 +122,7 @@ def reference(setup, N, usertags, kT, key):
         # the reference must not have a history of its own: empty caches before every reference evaluation
         calc.clearcache()
         calc.GFvalues, calc.Lvvvalues, calc.etavvalues = {}, {}, {}
-        out = calc.Lij(*calc.preene2betafree(kT, **calc.tags2preene(usertags)))
+        out = calc.Lij(*calc.preene2betafree(kT, **calc.tags2preene(usertags)), **(kw or {}))
         _pristine[k] = [np.array(x, dtype=float).copy() for x in out]
     return [x.copy() for x in _pristine[k]]
 
@@ -112,7 +140,7 @@ def check(case):
     N = setup["Nthermo"]
     results = []  # arrays returned to the 'caller'
     scribbled_vac = set()
-    flags = {"eval_after_scribble_same_vacancy": False, "eval_after_regen": False, "eval_after_reload": False, "inputs_rewritten_in_place": False}
+    flags = {"eval_after_scribble_same_vacancy": False, "eval_after_regen": False, "eval_after_reload": False, "inputs_rewritten_in_place": False, "index_data_scribbled": False}
     pending = {"regen": False, "reload": False}
     trace = []
     held = None
@@ -120,9 +148,10 @@ def check(case):
         if o["op"] == "eval":
             k = o["k"] % len(tags)
             args = list(calc.preene2betafree(case["kT"], **calc.tags2preene(tags[k])))
-            out = calc.Lij(*args)
+            kw = {"large_om2": 0.} if o.get("large0") else {}
+            out = calc.Lij(*args, **kw)
             held = (N, args)   # the caller keeps its own input buffers
-            ref = reference(setup, N, tags[k], case["kT"], canon([case["pool"][k], case["kT"]]))
+            ref = reference(setup, N, tags[k], case["kT"], canon([case["pool"][k], case["kT"], sorted(kw.items())]), kw)
             scale = max(np.abs(ref[0]).max(), max(np.abs(r).max() for r in ref))
             for nm, a, b in zip(("L0vv", "Lss", "Lsv", "L1vv"), out, ref):
                 e = np.abs(np.asarray(a) - b).max() / scale
@@ -136,7 +165,7 @@ def check(case):
                 flags["eval_after_regen"] = True
             if pending["reload"]:
                 flags["eval_after_reload"] = True
-            trace.append("eval%d" % k)
+            trace.append("eval%d" % k + ("L" if kw else ""))
         elif o["op"] == "scribble":
             if results:
                 k, out = results[o["r"] % len(results)]
@@ -145,6 +174,21 @@ def check(case):
                     arr[...] = o["value"]
                     scribbled_vac.add(0 if k in (0, 1) else k - 1)
                     trace.append("scribble(%d,%d)" % (k, o["t"] % 4))
+        elif o["op"] == "scribble_aux":
+            # the caller edits, in place, what omegalist()/interactlist() handed out (index data rather than tensors)
+            ol, jt = calc.omegalist(o["which"])
+            ol.reverse()
+            if isinstance(jt, np.ndarray):
+                jt[...] = jt[::-1].copy()
+                jt += 1
+            else:
+                jt.reverse()
+                for q in range(len(jt)):
+                    jt[q] = 0
+            il = calc.interactlist()
+            il.reverse()
+            flags["index_data_scribbled"] = True
+            trace.append("scribble_aux%d" % o["which"])
         elif o["op"] == "reuse":
             # the caller overwrites, in place, the input arrays it passed to the last evaluation with another input of the pool
             if held is not None and held[0] == N:
@@ -185,6 +229,7 @@ def check(case):
 
 def run(ctx):
     ctx.corpus(check)
+    ctx.given(cases(special=True), check, quick=4, thorough=48, shrink=False, salt=7)
     ctx.given(cases(), check, quick=40, thorough=1600, shrink=not ctx.quick)
 
 
